@@ -1,5 +1,5 @@
 /-
-  C20 — Statistics count exactly what happened (Spec level; the adder is `Props.C20Adder`).
+  C20 — Statistics count exactly what happened (Spec level; the adder is `Props.C20Conc` over `Conc.Adder`).
 
   For EVERY state: each counting lookup adds exactly one to hits+misses and is a hit exactly when it found an
   unexpired entry; writes, invalidations, deadline setters and quiet reads change no lookup counter; each
